@@ -38,10 +38,11 @@ Section Round.
     x0 < x1 -> y0 < y1 -> 0 < dx -> 0 < dy ->
     let h := round_dim RO ((y1 - y0) / dy) in
     let w := round_dim RO ((x1 - x0) / dx) in
+    (1 <= h)%Z -> (1 <= w)%Z ->
     create (mk_args None None (Some ((x0, y0, x1, y1), None)) None None None (Some ((dx, dy), None)) None None)
-    = if (h =? 0)%Z || (w =? 0)%Z then Raised else Area (x0, y0, x1, y1) (h, w).
+    = Area (x0, y0, x1, y1) (h, w).
   Proof.
-    intros Hx Hy Hdx Hdy h w.
+    intros Hx Hy Hdx Hdy h w Hh Hw.
     unfold create_area_def. cbn [a_width a_height a_extent a_shape a_ul a_center a_resolution a_radius a_units bind].
     rewrite !(conv_point1 Nextent) by (right; reflexivity).
     rewrite !conv_none. cbn [bind fst snd]. unfold extrapolate.
@@ -53,7 +54,7 @@ Section Round.
     replace (2 * ((x1 - x0) / 2) / dx) with ((x1 - x0) / dx) by (field; lra).
     fold h w.
     match goal with |- context[validate4 RO (Some ?e) ?n] => replace n with e by (repeat f_equal; lra) end.
-    rewrite validate4_same. reflexivity.
+    rewrite validate4_same. cbn [bind]. now apply make_area_ok.
   Qed.
 
   (* _round_poles leaves a centre alone unless it is within 1e-4 degrees of a pole *)
